@@ -17,11 +17,18 @@ from c10 import check_text
 def run(tier):
     C = vp.Check("C04", tier, "model_checking")
     maxchain = 3 if tier == "quick" else 4
-    with open(vp.SPEC + "/MC_Lineage_run.cfg", "w") as f:
-        f.write(open(vp.SPEC + "/MC_Lineage.cfg").read().replace("MaxChain = 3", "MaxChain = %d" % maxchain))
-    r = vp.tlc("MC_Lineage", "MC_Lineage_run", workers=8, timeout=6000, name="c04", xmx="24g")
-    C.add_tlc(r, "MC_Lineage MaxChain=%d" % maxchain)
+    # chains of 3 with every block shape (siblings and three levels of nesting included); in the thorough tier also chains
+    # of 4 without those two shapes (with them the configurations of 4 levels run into the millions)
+    r = vp.tlc("MC_Lineage", "MC_Lineage", workers=8, timeout=6000, name="c04", xmx="24g")
+    C.add_tlc(r, "MC_Lineage MaxChain=3, all block shapes")
     vecs = r.tags["VEC"]
+    if tier != "quick":
+        with open(vp.SPEC + "/MC_Lineage_run.cfg", "w") as f:
+            f.write(open(vp.SPEC + "/MC_Lineage.cfg").read().replace("MaxChain = 3", "MaxChain = 4").replace("Extras = TRUE", "Extras = FALSE"))
+        r4 = vp.tlc("MC_Lineage", "MC_Lineage_run", workers=8, timeout=6000, name="c04-4", xmx="24g")
+        C.add_tlc(r4, "MC_Lineage MaxChain=4, without the sibling / three-level shapes")
+        seen4 = set(json.dumps(v["g"], sort_keys=True) for v in vecs)
+        vecs = vecs + [v for v in r4.tags["VEC"] if json.dumps(v["g"], sort_keys=True) not in seen4]
     # longer chains with block a only (absent / defined / defined with super() per level): gaps between definers
     slim = 5 if tier == "quick" else 5
     with open(vp.SPEC + "/MC_Lineage_run.cfg", "w") as f:
@@ -34,81 +41,84 @@ def run(tier):
     C.cov["rule"] = ("every chain of length <= %d x per level (a, b in none/def/super; b top/nested/nested under a capture); registered in every batch "
                      "order (sampled beyond 6) and one by one; non-trivial = distinct configuration with at least one block defined" % maxchain)
     rnd = random.Random(vp.seed() + 3)
-    jobs, meta = [], []
-    for vi, v in enumerate(vecs):
-        names = sorted(v["g"].keys())
-        tpls = [[n, G.src(n, v["g"][n])] for n in names]
-        perms = list(itertools.permutations(tpls))
-        if len(perms) > 3:
-            perms = [perms[0]] + rnd.sample(perms[1:-1], 1 if tier == "quick" else 2) + [perms[-1]]
-        if tier == "quick" and len(perms) > 2:
-            perms = [perms[0], perms[-1]]         # (a third order goes through add_template_files below)
-        variants = [[{"op": "add", "tpls": list(p)}] for p in perms]
-        allp = list(itertools.permutations(tpls))
-        variants.append([{"op": "add", "tpls": list(allp[len(allp) // 2]), "via": "files"}])          # a batch through add_template_files
-        if v["ok"] and len(tpls) > 1:
-            byname = dict(tpls)
-            order, cur = [], [n for n in names if not v["g"][n]["ext"]][0]
-            while cur:
-                order.append(cur)
-                cur = next((n for n in names if v["g"][n]["ext"] == cur), None)
-            variants.append([{"op": "add", "tpls": [[n, byname[n]]]} for n in order])          # one by one, parents first
-            # histories that end in the same set (C04: whatever the order of registration): (1) an ancestor is first registered
-            # with other text of the SAME length and then replaced; (2) the second level first extends another root Z
-            # and is then re-registered with its real parent -- the derived data of every descendant must follow
-            root = order[0]
-            def alt(n):
-                return byname[n].replace("a%s(" % n, "aQ(").replace("b%s(" % n, "bQ(").replace("L%s;" % n, "LQ;")
-            for anc in order[:-1][:2]:
-                if alt(anc) != byname[anc]:
-                    variants.append([{"op": "add", "tpls": [[n, alt(n) if n == anc else byname[n]] for n in names]}, {"op": "add", "tpls": [[anc, byname[anc]]]}])
-            if len(order) >= 3:
-                second = order[1]
-                zsrc = G.src("Z", v["g"][root])
-                first = [["Z", zsrc]] + [[n, byname[n].replace("{%% extends '%s' %%}" % root, "{% extends 'Z' %}") if n == second else byname[n]] for n in names]
-                variants.append([{"op": "add", "tpls": first}, {"op": "add", "tpls": [[second, byname[second]]]}])
-        for steps0 in variants:
-            steps = list(steps0) + [{"op": "state"}]
-            if v["ok"]:
-                for n in names:
-                    steps += [{"op": "render", "name": n}, {"op": "render_block", "name": n, "block": "a"}, {"op": "render_block", "name": n, "block": "b"}]
-            jobs.append({"cfg": {}, "steps": steps})
-            meta.append((vi, len(steps0)))
-    res = vp.run_jobs(jobs, tag="c04", timeout=6000)
-    # I->S on a fixed fraction (1 in 14 / 16) of the jobs (deterministic): block / super frames of the real executions against TeraVM
-    vp.traced([j for i, j in enumerate(jobs) if i % (14 if tier == "quick" else 16) == 0], C, "c04-trace", timeout=3000)
-    for (vi, nadd), rr, job in zip(meta, res, jobs):
-        v = vecs[vi]
-        C.count()
-        names = sorted(v["g"].keys())
-        if any(d["a"] != "none" or d["b"] != "none" for d in v["g"].values()):
-            C.nontrivial(v["g"])
-        key = {"chain": {n: [v["g"][n]["ext"], v["g"][n]["a"], v["g"][n]["b"], "cap" if v["g"][n]["cap"] else "nest" if v["g"][n]["nest"] else "top", "super-after" if v["g"][n]["sa"] else ""] for n in names}}
-        if any(x.get("panic") or x.get("abort") for x in rr):
-            C.violation(dict(key, kind="panic"), "panic on chain %s" % key["chain"], {"job": job, "result": rr})
-            continue
-        adds = rr[:nadd]
-        ok = all(a.get("ok") for a in adds)
-        if ok != v["ok"]:
-            C.violation(dict(key, kind="acceptance"), "chain %s: engine %s, specification %s %s" % (
-                key["chain"], "accepts" if ok else "refuses (%s)" % [a.get("kind") for a in adds if not a.get("ok")][:1], "accepts" if v["ok"] else "refuses", v["fails"]),
-                {"job": job, "expected": v["ok"], "got": adds})
-            continue
-        if not v["ok"]:
-            continue
-        st = {t["name"]: t for t in rr[nadd]["state"]["templates"]}
-        k = nadd + 1
-        for n in names:
-            e = v["r"][n]
-            lin = {x["b"]: x["from"] for x in st[n]["lineage"]}
-            want = {b: e["lin"][b] for b in ("a", "b", "c") if e["lin"].get(b)}
-            if lin != want:
-                C.violation(dict(key, kind="lineage", tpl=n), "chain %s: lineage of %s is %s, specification %s" % (key["chain"], n, lin, want), {"job": job})
-            check_text(C, key, job, n, "render", rr[k], e["text"])
-            if "!" not in e["text"]:        # when the full render is an error, what a block "writes during it" is not demanded
-                check_text(C, key, job, n, "render_block(a)", rr[k + 1], e["blocks"]["a"])
-                check_text(C, key, job, n, "render_block(b)", rr[k + 2], e["blocks"]["b"])
-            k += 3
+    # (in slices of CHUNK configurations: the jobs of all of them together do not fit in memory in the thorough tier)
+    CHUNK = 20000
+    for lo in range(0, len(vecs), CHUNK):
+        jobs, meta = [], []
+        for vi, v in enumerate(vecs[lo:lo + CHUNK], lo):
+            names = sorted(v["g"].keys())
+            tpls = [[n, G.src(n, v["g"][n])] for n in names]
+            perms = list(itertools.permutations(tpls))
+            if len(perms) > 3:
+                perms = [perms[0]] + rnd.sample(perms[1:-1], 1 if tier == "quick" else 2) + [perms[-1]]
+            if tier == "quick" and len(perms) > 2:
+                perms = [perms[0], perms[-1]]         # (a third order goes through add_template_files below)
+            variants = [[{"op": "add", "tpls": list(p)}] for p in perms]
+            allp = list(itertools.permutations(tpls))
+            variants.append([{"op": "add", "tpls": list(allp[len(allp) // 2]), "via": "files"}])          # a batch through add_template_files
+            if v["ok"] and len(tpls) > 1:
+                byname = dict(tpls)
+                order, cur = [], [n for n in names if not v["g"][n]["ext"]][0]
+                while cur:
+                    order.append(cur)
+                    cur = next((n for n in names if v["g"][n]["ext"] == cur), None)
+                variants.append([{"op": "add", "tpls": [[n, byname[n]]]} for n in order])          # one by one, parents first
+                # histories that end in the same set (C04: whatever the order of registration): (1) an ancestor is first registered
+                # with other text of the SAME length and then replaced; (2) the second level first extends another root Z
+                # and is then re-registered with its real parent -- the derived data of every descendant must follow
+                root = order[0]
+                def alt(n):
+                    return byname[n].replace("a%s(" % n, "aQ(").replace("b%s(" % n, "bQ(").replace("L%s;" % n, "LQ;")
+                for anc in order[:-1][:2]:
+                    if alt(anc) != byname[anc]:
+                        variants.append([{"op": "add", "tpls": [[n, alt(n) if n == anc else byname[n]] for n in names]}, {"op": "add", "tpls": [[anc, byname[anc]]]}])
+                if len(order) >= 3:
+                    second = order[1]
+                    zsrc = G.src("Z", v["g"][root])
+                    first = [["Z", zsrc]] + [[n, byname[n].replace("{%% extends '%s' %%}" % root, "{% extends 'Z' %}") if n == second else byname[n]] for n in names]
+                    variants.append([{"op": "add", "tpls": first}, {"op": "add", "tpls": [[second, byname[second]]]}])
+            for steps0 in variants:
+                steps = list(steps0) + [{"op": "state"}]
+                if v["ok"]:
+                    for n in names:
+                        steps += [{"op": "render", "name": n}, {"op": "render_block", "name": n, "block": "a"}, {"op": "render_block", "name": n, "block": "b"}]
+                jobs.append({"cfg": {}, "steps": steps})
+                meta.append((vi, len(steps0)))
+        res = vp.run_jobs(jobs, tag="c04", timeout=6000)
+        # I->S on a fixed fraction (1 in 24 / 16) of the jobs (deterministic): block / super frames of the real executions against TeraVM
+        vp.traced([j for i, j in enumerate(jobs) if i % (24 if tier == "quick" else 16) == 0], C, "c04-trace", timeout=3000)
+        for (vi, nadd), rr, job in zip(meta, res, jobs):
+            v = vecs[vi]
+            C.count()
+            names = sorted(v["g"].keys())
+            if any(d["a"] != "none" or d["b"] != "none" for d in v["g"].values()):
+                C.nontrivial(v["g"])
+            key = {"chain": {n: [v["g"][n]["ext"], v["g"][n]["a"], v["g"][n]["b"], "cap" if v["g"][n]["cap"] else "nest" if v["g"][n]["nest"] else "top", "super-after" if v["g"][n]["sa"] else ""] for n in names}}
+            if any(x.get("panic") or x.get("abort") for x in rr):
+                C.violation(dict(key, kind="panic"), "panic on chain %s" % key["chain"], {"job": job, "result": rr})
+                continue
+            adds = rr[:nadd]
+            ok = all(a.get("ok") for a in adds)
+            if ok != v["ok"]:
+                C.violation(dict(key, kind="acceptance"), "chain %s: engine %s, specification %s %s" % (
+                    key["chain"], "accepts" if ok else "refuses (%s)" % [a.get("kind") for a in adds if not a.get("ok")][:1], "accepts" if v["ok"] else "refuses", v["fails"]),
+                    {"job": job, "expected": v["ok"], "got": adds})
+                continue
+            if not v["ok"]:
+                continue
+            st = {t["name"]: t for t in rr[nadd]["state"]["templates"]}
+            k = nadd + 1
+            for n in names:
+                e = v["r"][n]
+                lin = {x["b"]: x["from"] for x in st[n]["lineage"]}
+                want = {b: e["lin"][b] for b in ("a", "b", "c") if e["lin"].get(b)}
+                if lin != want:
+                    C.violation(dict(key, kind="lineage", tpl=n), "chain %s: lineage of %s is %s, specification %s" % (key["chain"], n, lin, want), {"job": job})
+                check_text(C, key, job, n, "render", rr[k], e["text"])
+                if "!" not in e["text"]:        # when the full render is an error, what a block "writes during it" is not demanded
+                    check_text(C, key, job, n, "render_block(a)", rr[k + 1], e["blocks"]["a"])
+                    check_text(C, key, job, n, "render_block(b)", rr[k + 2], e["blocks"]["b"])
+                k += 3
     k = len(vecs) // 2
     C.sample({"templates": {n: G.src(n, d) for n, d in vecs[k]["g"].items()}, "accepted": vecs[k]["ok"], "expected": vecs[k]["r"]})
     C.assumptions += ["block bodies are constant text, so a block written twice in one render writes the same text both times",
